@@ -52,6 +52,7 @@ fn main() {
             Some("c04") => gen_dec::gen_c04(&mut out, seed, thorough),
             Some("c15") => gen_dec::gen_c15(&mut out, seed, thorough),
             Some(w @ ("c16m" | "c02p")) => gen_enc::gen_prefix(&mut out, w, seed, thorough),
+            Some("c19p") => gen_enc::gen_prune(&mut out, seed, thorough),
             Some("c08") => gen_c08::gen(&mut out, seed, thorough),
             Some("c07") => gen_c07::gen(&mut out, seed, thorough),
             Some("c06") => gen_c06::gen(&mut out, seed, thorough),
